@@ -142,7 +142,7 @@ def accepted_prefix(op):
     return prims[:head + op["veto_at"]], "value"
 
 
-MODEL_STRIP = ("create", "asset", "deleter", "stored_only", "proxy", "named", "veto_at", "oneshot", "veto_ref")
+MODEL_STRIP = ("create", "asset", "deleter", "stored_only", "proxy", "named", "veto_at", "oneshot", "veto_ref", "badpos", "badtype")
 
 
 def model_apply(drv, op, extra=None):
@@ -157,6 +157,13 @@ def model_apply(drv, op, extra=None):
             return m
         # later listeners never hear the vetoed reference announcement
         return {"res": "value", "events": [e for e in m.get("events", []) if e[0] != "instance_reference"], "prims": [dict(op, ref=None)]}
+    if op.get("badtype"):
+        # an argument of a type the call's own type precondition refuses: nothing changes, nothing is announced
+        return {"res": "assert", "events": [], "prims": []}
+    if op.get("badpos"):
+        # invalid (non-integer) position: refused by the up-front assertion of every add_* / connect_pin before any
+        # announcement or effect (fix 3rd of 2026-09-28 in /repo) - nothing changes, nothing is announced
+        return {"res": "assert", "events": [], "prims": []}
     prims, outcome = accepted_prefix(op)
     events = []
     res = outcome
@@ -229,6 +236,18 @@ def execute_compound(W, op):
             guard.arm(None)
 
 
+def _posval(op):
+    """the position argument of the call; op["badpos"]: an invalid (non-integer) one"""
+    bad = op.get("badpos")
+    if bad == "float":
+        return op["pos"] + 0.5
+    if bad == "str":
+        return str(op["pos"])
+    if bad == "list":
+        return [op["pos"]]
+    return op["pos"]
+
+
 def execute(world, op, rng=None, tok=None):
     """Apply one model op through the public API. Returns the outcome class."""
     t = op["t"]
@@ -269,7 +288,7 @@ def execute(world, op, rng=None, tok=None):
             elif op.get("pos") is None:
                 n.add_library(g("library", op["l"]))
             else:
-                n.add_library(g("library", op["l"]), position=op["pos"])
+                n.add_library(g("library", op["l"]), position=_posval(op))
         elif t == "removeLibrary":
             g("netlist", op["n"]).remove_library(g("library", op["l"]))
         elif t == "removeLibrariesFrom":
@@ -284,7 +303,7 @@ def execute(world, op, rng=None, tok=None):
             elif op.get("pos") is None:
                 l.add_definition(g("definition", op["d"]))
             else:
-                l.add_definition(g("definition", op["d"]), position=op["pos"])
+                l.add_definition(g("definition", op["d"]), position=_posval(op))
         elif t == "removeDefinition":
             g("library", op["l"]).remove_definition(g("definition", op["d"]))
         elif t == "removeDefinitionsFrom":
@@ -299,7 +318,7 @@ def execute(world, op, rng=None, tok=None):
             elif op.get("pos") is None:
                 d.add_port(g("port", op["p"]))
             else:
-                d.add_port(g("port", op["p"]), position=op["pos"])
+                d.add_port(g("port", op["p"]), position=_posval(op))
         elif t == "removePort":
             g("definition", op["d"]).remove_port(g("port", op["p"]))
         elif t == "removePortsFrom":
@@ -314,7 +333,7 @@ def execute(world, op, rng=None, tok=None):
             elif op.get("pos") is None:
                 d.add_cable(g("cable", op["c"]))
             else:
-                d.add_cable(g("cable", op["c"]), position=op["pos"])
+                d.add_cable(g("cable", op["c"]), position=_posval(op))
         elif t == "removeCable":
             g("definition", op["d"]).remove_cable(g("cable", op["c"]))
         elif t == "removeCablesFrom":
@@ -327,7 +346,7 @@ def execute(world, op, rng=None, tok=None):
             if op.get("pos") is None:
                 d.add_child(g("instance", op["i"]))
             else:
-                d.add_child(g("instance", op["i"]), position=op["pos"])
+                d.add_child(g("instance", op["i"]), position=_posval(op))
         elif t == "removeChild":
             g("definition", op["d"]).remove_child(g("instance", op["i"]))
         elif t == "removeChildrenFrom":
@@ -358,7 +377,7 @@ def execute(world, op, rng=None, tok=None):
             elif op.get("pos") is None:
                 p.add_pin(g("pin", op["q"]))
             else:
-                p.add_pin(g("pin", op["q"]), position=op["pos"])
+                p.add_pin(g("pin", op["q"]), position=_posval(op))
         elif t == "removePin":
             g("port", op["p"]).remove_pin(g("pin", op["q"]))
         elif t == "removePinsFrom":
@@ -373,7 +392,7 @@ def execute(world, op, rng=None, tok=None):
             elif op.get("pos") is None:
                 c.add_wire(g("wire", op["w"]))
             else:
-                c.add_wire(g("wire", op["w"]), position=op["pos"])
+                c.add_wire(g("wire", op["w"]), position=_posval(op))
         elif t == "removeWire":
             g("cable", op["c"]).remove_wire(g("wire", op["w"]))
         elif t == "removeWiresFrom":
@@ -385,13 +404,13 @@ def execute(world, op, rng=None, tok=None):
             if op.get("pos") is None:
                 g("wire", op["w"]).connect_pin(g("pin", op["q"]))
             else:
-                g("wire", op["w"]).connect_pin(g("pin", op["q"]), position=op["pos"])
+                g("wire", op["w"]).connect_pin(g("pin", op["q"]), position=_posval(op))
         elif t == "connectOuter":
             h = outer_handle(W, rng, op["i"], op["q"])
             if op.get("pos") is None:
                 g("wire", op["w"]).connect_pin(h)
             else:
-                g("wire", op["w"]).connect_pin(h, position=op["pos"])
+                g("wire", op["w"]).connect_pin(h, position=_posval(op))
         elif t == "disconnect":
             g("wire", op["w"]).disconnect_pin(pinref_obj(W, rng, op["r"], bool(op.get("proxy"))))
         elif t == "disconnectFrom":
@@ -408,6 +427,8 @@ def execute(world, op, rng=None, tok=None):
                     inst.reference = None
             else:
                 inst.reference = g("definition", op["d"])
+        elif t == "setTop" and op.get("badtype"):
+            g("netlist", op["n"]).top_instance = {"str": "top", "int": 0, "tuple": (), "float": 1.0}[op["badtype"]]
         elif t == "setTop":
             n = g("netlist", op["n"])
             n.top_instance = None if op.get("i") is None else g("instance", op["i"])
@@ -451,6 +472,16 @@ def prepare(world, op):
     """Harness-side arrangement done BEFORE the 'before' snapshot: for an add that the namespace
     manager must veto, give one sibling a unique name and (for a non-create add of an orphan) give
     the orphan the same name.  Returns a cleanup token."""
+    if op.get("badtype"):
+        world.get("netlist", op["n"])
+    if op.get("badpos"):
+        # operands exist before the call (a fresh label is not created inside the snapshot window of a refused call)
+        for kind, f in {"addLibrary": (("netlist", "n"), ("library", "l")), "addDefinition": (("library", "l"), ("definition", "d")),
+                        "addPort": (("definition", "d"), ("port", "p")), "addCable": (("definition", "d"), ("cable", "c")),
+                        "addChild": (("definition", "d"), ("instance", "i")), "addPin": (("port", "p"), ("pin", "q")),
+                        "addWire": (("cable", "c"), ("wire", "w")), "connectInner": (("wire", "w"), ("pin", "q")),
+                        "connectOuter": (("wire", "w"), ("instance", "i"), ("pin", "q"))}.get(op["t"], ()):
+            world.get(kind, op[f])
     if op["t"] == "setTopDef" and op.get("named"):
         world.get("netlist", op["n"])          # operands exist before the call (not created inside the snapshot window)
         d = world.get("definition", op["d"])
@@ -509,7 +540,7 @@ def execute_veto(world, op, tok):
             if op.get("pos") is None:
                 getattr(parent, meth)(orphan)
             else:
-                getattr(parent, meth)(orphan, position=op["pos"])
+                getattr(parent, meth)(orphan, position=_posval(op))
         return "ok"
     except Exception as e:  # noqa: BLE001
         if isinstance(e, RuntimeError) and str(e).startswith("executor:"):
